@@ -55,7 +55,7 @@ Fixpoint all2 {A B} (f : A -> B -> bool) (a : list A) (b : list B) : bool :=
   end.
 
 (* receiver operations *)
-Inductive rop := RComplete | RFrameWE | RFrame | RStart | RRead (n : N) | REnd | RMsgAll.
+Inductive rop := RComplete | RFrameWE | RFrame | RStart | RRead (n : N) | REnd | RMsgAll | RSecret.
 Inductive rres := ROk (x : xbytes) (flag : N) | ROkU | RErr.
 
 Fixpoint recv_msg_all (s : stream) (acc : bytes) (fs : list frame) : stream * sres bytes * list frame :=
@@ -87,6 +87,20 @@ Definition run_rop (s : stream) (fs : list frame) (o : rop) : stream * list fram
               | f :: r => match recv_frame s f with
                           | (s1, SOk d) => (s1, r, MBytes d 255) | (s1, SErr _) => (s1, r, MFail) end
               end
+  | RSecret =>   (* GetSecret: prepare_crypto_for_secret; ReceiveFrame; strip one trailing NUL; restore *)
+      let s0 := prepare_secret s in
+      match fs with
+      | [] => (restore_secret s0, [], MFail)
+      | f :: r => match recv_frame s0 f with
+                  | (s1, SOk d) =>
+                      let d' := match rev' d with
+                                | l :: t => if byte_eqb l x00 then rev' t else d
+                                | [] => d
+                                end in
+                      (restore_secret s1, r, MBytes d' 255)
+                  | (s1, SErr _) => (restore_secret s1, r, MFail)
+                  end
+      end
   | RStart => match start_read s fs with
               | (s1, SOk _, r) => (s1, r, MUnit) | (s1, SErr _, r) => (s1, r, MFail) end
   | RRead n => match read_bytes s n fs with
